@@ -1,46 +1,46 @@
-import Proofs.F64Approx
-import Proofs.F64Div
-/-! Relative-error calculus for binary64 computations whose intermediate values stay far from the overflow and underflow
-thresholds (|v| in [2^-400, 2^400]): each operation contributes a factor (1 + 2u). Hand-written (binary64 only); used for the
-double-precision Halley iterations of `cbrtf`. -/
-namespace F64
+import Proofs.F32Approx
+import Proofs.F32Div
+/-! Relative-error calculus for binary32 computations whose intermediate values stay away from the overflow and underflow
+thresholds (|v| in [2^-100, 2^100]): each operation contributes a factor (1 + 2u). Binary32 counterpart of F64Rel.lean (same
+proofs with the window constants of the format), plus the fused multiply-add. -/
+namespace F32
 open Real
 
 /-- `a` is finite and approximates the real number `v` with relative error `ρ` -/
 def Apx (a : Nat) (v ρ : ℝ) : Prop := Finite a ∧ |toReal a - v| ≤ ρ * |v|
 
 /-- magnitudes for which `eta` is dominated by `u |v|` and nothing overflows -/
-def Win (v : ℝ) : Prop := (2:ℝ)^(-400:ℤ) ≤ |v| ∧ |v| ≤ (2:ℝ)^(400:ℤ)
+def Win (v : ℝ) : Prop := (2:ℝ)^(-100:ℤ) ≤ |v| ∧ |v| ≤ (2:ℝ)^(100:ℤ)
 
 theorem apx_exact (a : Nat) (h : Finite a) : Apx a (toReal a) 0 := ⟨h, by simp⟩
 
 theorem apx_mono {a : Nat} {v ρ ρ' : ℝ} (h : Apx a v ρ) (hρ : ρ ≤ ρ') : Apx a v ρ' :=
   ⟨h.1, le_trans h.2 (mul_le_mul_of_nonneg_right hρ (abs_nonneg _))⟩
 
-theorem eta_small (z : ℝ) (h : (2:ℝ)^(-401:ℤ) ≤ |z|) : eta ≤ (u / 128) * |z| := by
-  have h1 : eta ≤ (2:ℝ)^(-461:ℤ) := by unfold eta; exact zpow_le_zpow_right₀ (by norm_num) (by norm_num)
-  have h2 : (2:ℝ)^(-461:ℤ) = (u / 128) * (2:ℝ)^(-401:ℤ) := by
+theorem eta_small (z : ℝ) (h : (2:ℝ)^(-101:ℤ) ≤ |z|) : eta ≤ (u / 128) * |z| := by
+  have h1 : eta ≤ (2:ℝ)^(-132:ℤ) := by unfold eta; exact zpow_le_zpow_right₀ (by norm_num) (by norm_num)
+  have h2 : (2:ℝ)^(-132:ℤ) = (u / 128) * (2:ℝ)^(-101:ℤ) := by
     unfold u
     rw [show (128:ℝ) = (2:ℝ)^(7:ℤ) by norm_num, ← zpow_sub₀ (by norm_num : (2:ℝ) ≠ 0), ← zpow_add₀ (by norm_num : (2:ℝ) ≠ 0)]; norm_num
-  have h3 : (u / 128) * (2:ℝ)^(-401:ℤ) ≤ (u / 128) * |z| := mul_le_mul_of_nonneg_left h (by have := u_pos; positivity)
+  have h3 : (u / 128) * (2:ℝ)^(-101:ℤ) ≤ (u / 128) * |z| := mul_le_mul_of_nonneg_left h (by have := u_pos; positivity)
   exact h1.trans (h2.le.trans h3)
 
 theorem win_half (v z σ : ℝ) (hw : Win v) (hz : |z - v| ≤ σ * |v|) (hσ0 : 0 ≤ σ) (hσ : σ ≤ 1 / 2) :
-    (2:ℝ)^(-401:ℤ) ≤ |z| ∧ |z| ≤ (2:ℝ)^(401:ℤ) ∧ |z| ≤ (1 + σ) * |v| := by
+    (2:ℝ)^(-101:ℤ) ≤ |z| ∧ |z| ≤ (2:ℝ)^(101:ℤ) ∧ |z| ≤ (1 + σ) * |v| := by
   have h1 := abs_sub_abs_le_abs_sub z v
   have h2 := abs_sub_abs_le_abs_sub v z
   rw [abs_sub_comm v z] at h2
   have hv := abs_nonneg v
-  have ha : (2:ℝ)^(-401:ℤ) = (2:ℝ)^(-400:ℤ) / 2 := by
-    rw [show (-401:ℤ) = -400 - 1 by norm_num, zpow_sub_one₀ (by norm_num : (2:ℝ) ≠ 0)]; ring
-  have hb : (2:ℝ)^(401:ℤ) = (2:ℝ)^(400:ℤ) * 2 := by
-    rw [show (401:ℤ) = 400 + 1 by norm_num, zpow_add_one₀ (by norm_num : (2:ℝ) ≠ 0)]
+  have ha : (2:ℝ)^(-101:ℤ) = (2:ℝ)^(-100:ℤ) / 2 := by
+    rw [show (-101:ℤ) = -100 - 1 by norm_num, zpow_sub_one₀ (by norm_num : (2:ℝ) ≠ 0)]; ring
+  have hb : (2:ℝ)^(101:ℤ) = (2:ℝ)^(100:ℤ) * 2 := by
+    rw [show (101:ℤ) = 100 + 1 by norm_num, zpow_add_one₀ (by norm_num : (2:ℝ) ≠ 0)]
   rw [ha, hb]
   obtain ⟨hl, hh⟩ := hw
-  have hp4 : (0:ℝ) < (2:ℝ)^(400:ℤ) := by positivity
+  have hp4 : (0:ℝ) < (2:ℝ)^(100:ℤ) := by positivity
   have hs : σ * |v| ≤ 1 / 2 * |v| := mul_le_mul_of_nonneg_right hσ hv
-  generalize (2:ℝ)^(400:ℤ) = P4 at *
-  generalize (2:ℝ)^(-400:ℤ) = Q4 at *
+  generalize (2:ℝ)^(100:ℤ) = P4 at *
+  generalize (2:ℝ)^(-100:ℤ) = Q4 at *
   refine ⟨by linarith, by linarith, by linarith⟩
 
 /-- real core shared by all operations -/
@@ -56,10 +56,10 @@ theorem rel_core (fl z v σ : ℝ) (hw : Win v) (hz : |z - v| ≤ σ * |v|) (hσ
   have h3 : |fl - v| ≤ |fl - z| + |z - v| := abs_sub_le _ _ _
   nlinarith
 
-theorem far_fit (z : ℝ) (h : |z| ≤ (2:ℝ)^(401:ℤ)) : |z| < (2:ℝ)^(1023:ℤ) :=
+theorem far_fit (z : ℝ) (h : |z| ≤ (2:ℝ)^(101:ℤ)) : |z| < (2:ℝ)^(127:ℤ) :=
   lt_of_le_of_lt h (zpow_lt_zpow_right₀ (by norm_num) (by norm_num))
 
-theorem far_fit' (z : ℝ) (h : |z| ≤ (2:ℝ)^(401:ℤ)) : |z| ≤ (2:ℝ)^(1022:ℤ) :=
+theorem far_fit' (z : ℝ) (h : |z| ≤ (2:ℝ)^(101:ℤ)) : |z| ≤ (2:ℝ)^(126:ℤ) :=
   le_trans h (zpow_le_zpow_right₀ (by norm_num) (by norm_num))
 
 /-- product of two approximations -/
@@ -153,4 +153,34 @@ theorem div_apx (a b : Nat) (va vb ρa ρb : ℝ) (ha : Apx a va ρa) (hb : Apx 
   refine ⟨ff, rel_core _ _ _ _ hw hz hσ0 hσ ?_⟩
   exact fe
 
-end F64
+/-- fused multiply-add of approximations whose product and addend have the same sign -/
+theorem fma_apx (a b c : Nat) (va vb vc ρa ρb ρc σ : ℝ) (ha : Apx a va ρa) (hb : Apx b vb ρb) (hc : Apx c vc ρc)
+    (h0a : 0 ≤ ρa) (h0b : 0 ≤ ρb) (h0c : 0 ≤ ρc) (hσ1 : (1 + ρa) * (1 + ρb) - 1 ≤ σ) (hσ2 : ρc ≤ σ) (hσ : σ ≤ 1 / 2)
+    (hs : 0 ≤ (va * vb) * vc) (hw : Win (va * vb + vc)) :
+    Apx (fma a b c) (va * vb + vc) ((1 + σ) * (1 + 2 * u) - 1) := by
+  have hp := prod_err _ _ _ _ _ _ ha.2 hb.2 h0a h0b
+  have hσ0 : 0 ≤ σ := le_trans h0c hσ2
+  have habs : |va * vb + vc| = |va * vb| + |vc| := by
+    rcases le_total 0 (va * vb) with h | h <;> rcases le_total 0 vc with h' | h'
+    · rw [abs_of_nonneg h, abs_of_nonneg h', abs_of_nonneg (by linarith)]
+    · have hz : (va * vb) * vc = 0 := le_antisymm (mul_nonpos_of_nonneg_of_nonpos h h') hs
+      rcases mul_eq_zero.mp hz with r | r <;> simp [r]
+    · have hz : (va * vb) * vc = 0 := le_antisymm (mul_nonpos_of_nonpos_of_nonneg h h') hs
+      rcases mul_eq_zero.mp hz with r | r <;> simp [r]
+    · rw [abs_of_nonpos h, abs_of_nonpos h', abs_of_nonpos (by linarith)]; ring
+  have hz : |(toReal a * toReal b + toReal c) - (va * vb + vc)| ≤ σ * |va * vb + vc| := by
+    have e : (toReal a * toReal b + toReal c) - (va * vb + vc) = (toReal a * toReal b - va * vb) + (toReal c - vc) := by ring
+    rw [e, habs]
+    have t := abs_add_le (toReal a * toReal b - va * vb) (toReal c - vc)
+    have h1 : ((1 + ρa) * (1 + ρb) - 1) * |va * vb| ≤ σ * |va * vb| := mul_le_mul_of_nonneg_right hσ1 (abs_nonneg _)
+    have h2 : ρc * |vc| ≤ σ * |vc| := mul_le_mul_of_nonneg_right hσ2 (abs_nonneg _)
+    have := hc.2
+    linarith
+  obtain ⟨_, hhi, _⟩ := win_half _ _ _ hw hz hσ0 hσ
+  obtain ⟨ff, fe⟩ := fma_val a b c ha.1 hb.1 hc.1 (far_fit _ hhi)
+  refine ⟨ff, rel_core _ _ _ _ hw hz hσ0 hσ ?_⟩
+  have := u_pos
+  have hp0 := abs_nonneg (toReal a * toReal b + toReal c)
+  nlinarith
+
+end F32
